@@ -110,9 +110,9 @@ Open Scope Z_scope.
    application chooses the placements it supplies in TaskDescription.slots.  Model: RP.AppSlots.Model;
    occupations in 1/64 of a core / GPU (BUSY = 64).
 
-   wf_nodes ns0     : the node list as Pilot.nodelist builds it from the agent's resource details --
-                      node ids are the list positions, lfs / mem are numbers >= 0, every core / GPU
-                      is DOWN or occupied between FREE and BUSY;
+   wf_nodes ns0     : node ids (Node.index) pairwise distinct -- not necessarily the list positions --,
+                      lfs / mem a number >= 0 or not reported (None), every core / GPU DOWN or
+                      occupied between FREE and BUSY; node names arbitrary (possibly all equal);
    op_ok            : the calls are find_slots / release_slots / verify / Node.find_slot with
                       non-negative sizes and occupations (find_slots: core occupation > 0);
    all_disciplined  : release_slots is given slots the application holds (got from find_slots and
@@ -123,7 +123,8 @@ Open Scope Z_scope.
 (* After EVERY call of ANY sequence the node list is the initial one plus exactly the slots handed out
    and not yet released (per core, GPU, lfs, mem of every node; DOWN stays DOWN; ids and names
    unchanged), and a release_slots of held slots never raises: release_slots gives back exactly what
-   find_slots took, on the node it took it from -- also when node names repeat *)
+   find_slots took, on the node it took it from -- also when node names repeat, when node ids are not the list
+   positions, and on nodes that do not report lfs / mem *)
 Theorem C03_app_release_restores :
   forall (ns0 : list node) (verified : bool) (ops : list op),
     wf_nodes ns0 -> Forall op_ok ops ->
@@ -159,21 +160,18 @@ Theorem C03_app_failed_find_unchanged_one_call :
 Proof. exact failed_find_unchanged. Qed.
 Print Assumptions C03_app_failed_find_unchanged_one_call.
 
-(* REFUTED beyond wf_nodes (recorded findings): node ids that are not the list positions -- the agent
-   keeps the ids when it drops inaccessible nodes -- and nodes built without lfs / mem *)
-Theorem C03_app_gapped_ids_refuted :
-  exists ns0 ops, NoDup (map nd_index ns0) /\ Forall wf_node ns0 /\ Forall op_ok ops /\
-    let tr := run (start_nl ns0 true) ops in
-    all_disciplined [] ops tr = true /\ v_restores (judge ns0 ns0 [] ops tr) = false.
-Proof. exact release_with_gapped_ids_refuted. Qed.
-Print Assumptions C03_app_gapped_ids_refuted.
-
-Theorem C03_app_without_lfs_refuted :
-  exists ns0 ops, positional ns0 /\ Forall op_ok ops /\
-    let tr := run (start_nl ns0 true) ops in
-    all_disciplined [] ops tr = true /\ v_restores (judge ns0 ns0 [] ops tr) = false.
-Proof. exact release_without_lfs_refuted. Qed.
-Print Assumptions C03_app_without_lfs_refuted.
+(* node ids that are not list positions (0,2 after a dropped node; 1,0) and nodes that report neither
+   lfs nor mem: find, failed find with roll-back, release -- and the list is the initial one again *)
+Example C03_app_ids_and_lfs_nonvacuous :
+  let nd i := mkNode i "n" [Some 0; Some 0] [] None None in
+  let s i := mkSlot [(0, 64); (1, 64)] [] 0 0 i "n" in
+  (let ns0 := [nd 0; nd 2] in
+   let tr := run (start_nl ns0 true) [OFind (rr1 2) 2; ORelease [s 0; s 2]] in
+   map fst tr = [RSlots [s 0; s 2]; ROk] /\ nl_nodes (last_nl (start_nl ns0 true) tr) = ns0) /\
+  (let ns0 := [nd 1; nd 0] in
+   let tr := run (start_nl ns0 true) [OFind (rr1 2) 1; OFind (rr1 2) 2; ORelease [s 1]] in
+   map fst tr = [RSlots [s 1]; RNone; ROk] /\ nl_nodes (last_nl (start_nl ns0 true) tr) = ns0).
+Proof. exact gapped_and_permuted_ids_and_no_lfs. Qed.
 
 Example C03_app_nonvacuous :
   let ns0 := [mkNode 0 "localhost" [Some 0; Some 0] [] (Some 100) (Some 0);
